@@ -158,7 +158,8 @@ def valueText (s : SchemaD) : Nat → J → Ty → Option String
               match v with
               | .bool b => some (if b then "true" else "false")
               | .str x => some (if isIntText x then x else jsonDumps x)
-              | .num k => some (toString k)
+              | .num k => some (toString k)                 -- FloatValue(str(int))
+              | .obj [("$float", .str r)] => some r           -- FloatValue(str(float))
               | _ => none
             | .input =>
               match v with
@@ -214,17 +215,17 @@ def Apps.get (a : Apps) (path : String) : List DirApp := ((a.find? (·.1 == path
 def keepCustom : List DirApp → PrinterState → List DirApp × PrinterState
   | [], st => ([], st)
   | d :: ds, st =>
-    let (spec, st1) := st.member d.name
-    let (rest, st2) := keepCustom ds st1
-    (if spec then rest else d :: rest, st2)
+    let m := st.member d.name
+    let r := keepCustom ds m.2
+    (if m.1 then r.1 else d :: r.1, r.2)
 
 /-- `print_directives(definition)` -/
 def printDirectives (o : Opts) (apps : Apps) (path : String) (st : PrinterState) : String × PrinterState :=
   if !o.custom then ("", st) else
   let nodes := apps.get path
   if nodes.isEmpty then ("", st) else
-  let (kept, st') := keepCustom nodes st
-  (" " ++ " ".intercalate (kept.map dirAppText), st')
+  let k := keepCustom nodes st
+  (" " ++ " ".intercalate (k.1.map dirAppText), k.2)
 
 def DEFAULT_DEPRECATION := "No longer supported"
 
@@ -233,98 +234,87 @@ def printDeprecated (r : Option String) : String :=
   | none => ""
   | some x => if x.isEmpty || x == DEFAULT_DEPRECATION then " @deprecated" else " @deprecated(reason: " ++ jsonDumps x ++ ")"
 
+/-- state-passing map with the position of the element (`enumerate`) -/
+def mapSt {α} (f : Nat → α → PrinterState → String × PrinterState) : Nat → List α → PrinterState → List String × PrinterState
+  | _, [], st => ([], st)
+  | i, x :: xs, st =>
+    let r1 := f i x st
+    let r2 := mapSt f (i+1) xs r1.2
+    (r1.1 :: r2.1, r2.2)
+
 def printInputValue (s : SchemaD) (o : Opts) (apps : Apps) (path : String) (a : ArgD) (st : PrinterState) : String × PrinterState :=
   let base := a.name ++ ": " ++ a.type.render
   let withDefault :=
     if a.hasDefault then base ++ " = " ++ (valueText s valueFuel a.default a.type).getD "<ValueError>" else base
-  let (d, st') := printDirectives o apps (path ++ "." ++ a.name) st
-  (strip (withDefault ++ d), st')
+  let d := printDirectives o apps (path ++ "." ++ a.name) st
+  (strip (withDefault ++ d.1), d.2)
 
+def printArg (s : SchemaD) (o : Opts) (apps : Apps) (path : String) (depth : Nat) (multi : Bool) (i : Nat) (a : ArgD)
+    (st : PrinterState) : String × PrinterState :=
+  let v := printInputValue s o apps path a st
+  (if multi then printDescription o a.desc (depth + 1) (i == 0) ++ o.indent ++ repeatStr o.indent depth ++ v.1 else v.1, v.2)
+
+/-- `print_arguments(args, depth)`: one argument per line iff some argument has a description to print -/
 def printArguments (s : SchemaD) (o : Opts) (apps : Apps) (path : String) (args : List ArgD) (depth : Nat) (st : PrinterState) :
     String × PrinterState :=
-  if args.isEmpty then ("", st) else
   let indent := repeatStr o.indent depth
-  if o.descriptions && args.any (fun a => match a.desc with | some d => !d.isEmpty | none => false) then
-    let rec go (i : Nat) (st : PrinterState) : List ArgD → List String × PrinterState
-      | [] => ([], st)
-      | a :: as =>
-        let (v, st1) := printInputValue s o apps path a st
-        let (rest, st2) := go (i+1) st1 as
-        ((printDescription o a.desc (depth + 1) (i == 0) ++ o.indent ++ indent ++ v) :: rest, st2)
-    let (ls, st') := go 0 st args
-    (indent ++ "(\n" ++ "\n".intercalate ls ++ "\n" ++ indent ++ ")", st')
-  else
-    let (vs, st') := args.foldl (fun (acc : List String × PrinterState) a =>
-      let (v, st1) := printInputValue s o apps path a acc.2
-      (acc.1 ++ [v], st1)) ([], st)
-    ("(" ++ ", ".intercalate vs ++ ")", st')
+  let multi := o.descriptions && args.any (fun a => match a.desc with | some d => !d.isEmpty | none => false)
+  let r := mapSt (printArg s o apps path depth multi) 0 args st
+  (if args.isEmpty then ""
+   else if multi then indent ++ "(\n" ++ "\n".intercalate r.1 ++ "\n" ++ indent ++ ")"
+   else "(" ++ ", ".intercalate r.1 ++ ")", r.2)
+
+def printField (s : SchemaD) (o : Opts) (apps : Apps) (tname : String) (i : Nat) (f : FieldD) (st : PrinterState) : String × PrinterState :=
+  let path := tname ++ "." ++ f.name
+  let a := printArguments s o apps path f.args 1 st
+  let d := printDirectives o apps path a.2
+  (rstrip (printDescription o f.desc 1 (i == 0) ++ o.indent ++ f.name ++ a.1 ++ ": " ++ f.type.render
+           ++ printDeprecated f.deprecated ++ d.1), d.2)
 
 def printFields (s : SchemaD) (o : Opts) (apps : Apps) (t : TypeD) (st : PrinterState) : String × PrinterState :=
-  let rec go (i : Nat) (st : PrinterState) : List FieldD → List String × PrinterState
-    | [] => ([], st)
-    | f :: fs =>
-      let path := t.name ++ "." ++ f.name
-      let (a, st1) := printArguments s o apps path f.args 1 st
-      let (d, st2) := printDirectives o apps path st1
-      let line := rstrip (printDescription o f.desc 1 (i == 0) ++ o.indent ++ f.name ++ a ++ ": " ++ f.type.render
-                          ++ printDeprecated f.deprecated ++ d)
-      let (rest, st3) := go (i+1) st2 fs
-      (line :: rest, st3)
-  let (ls, st') := go 0 st t.fields
-  ("\n".intercalate ls, st')
+  let r := mapSt (printField s o apps t.name) 0 t.fields st
+  ("\n".intercalate r.1, r.2)
+
+def printEnumValue (o : Opts) (apps : Apps) (tname : String) (i : Nat) (v : EnumValD) (st : PrinterState) : String × PrinterState :=
+  let dv := printDirectives o apps (tname ++ "." ++ v.name) st
+  (rstrip (printDescription o v.desc 1 (i == 0) ++ o.indent ++ v.name ++ printDeprecated v.deprecated ++ dv.1), dv.2)
+
+def printInputField (s : SchemaD) (o : Opts) (apps : Apps) (tname : String) (i : Nat) (f : ArgD) (st : PrinterState) : String × PrinterState :=
+  let v := printInputValue s o apps tname f st
+  (printDescription o f.desc 1 (i == 0) ++ o.indent ++ v.1, v.2)
 
 def printType (s : SchemaD) (o : Opts) (apps : Apps) (t : TypeD) (st : PrinterState) : String × PrinterState :=
   let desc := printDescription o t.desc
+  let d := printDirectives o apps t.name st
   match t.kind with
-  | .scalar =>
-    let (d, st1) := printDirectives o apps t.name st
-    (desc ++ "scalar " ++ t.name ++ d, st1)
+  | .scalar => (desc ++ "scalar " ++ t.name ++ d.1, d.2)
   | .enum =>
-    let (d, st1) := printDirectives o apps t.name st
-    let rec go (i : Nat) (st : PrinterState) : List EnumValD → List String × PrinterState
-      | [] => ([], st)
-      | v :: vs =>
-        let (dv, st2) := printDirectives o apps (t.name ++ "." ++ v.name) st
-        let (rest, st3) := go (i+1) st2 vs
-        (rstrip (printDescription o v.desc 1 (i == 0) ++ o.indent ++ v.name ++ printDeprecated v.deprecated ++ dv) :: rest, st3)
-    let (ls, st2) := go 0 st1 t.values
-    (desc ++ "enum " ++ t.name ++ d ++ " {\n" ++ "\n".intercalate ls ++ "\n}", st2)
-  | .union =>
-    let (d, st1) := printDirectives o apps t.name st
-    (desc ++ "union " ++ t.name ++ d ++ " = " ++ " | ".intercalate t.members, st1)
+    let r := mapSt (printEnumValue o apps t.name) 0 t.values d.2
+    (desc ++ "enum " ++ t.name ++ d.1 ++ " {\n" ++ "\n".intercalate r.1 ++ "\n}", r.2)
+  | .union => (desc ++ "union " ++ t.name ++ d.1 ++ " = " ++ " | ".intercalate t.members, d.2)
   | .object =>
     let impl := if t.interfaces.isEmpty then "" else " implements " ++ " & ".intercalate t.interfaces
-    let (d, st1) := printDirectives o apps t.name st
-    let (fs, st2) := printFields s o apps t st1
-    (desc ++ "type " ++ t.name ++ impl ++ d ++ " {\n" ++ fs ++ "\n}", st2)
+    let fs := printFields s o apps t d.2
+    (desc ++ "type " ++ t.name ++ impl ++ d.1 ++ " {\n" ++ fs.1 ++ "\n}", fs.2)
   | .interface =>
-    let (d, st1) := printDirectives o apps t.name st
-    let (fs, st2) := printFields s o apps t st1
-    (desc ++ "interface " ++ t.name ++ d ++ " {\n" ++ fs ++ "\n}", st2)
+    let fs := printFields s o apps t d.2
+    (desc ++ "interface " ++ t.name ++ d.1 ++ " {\n" ++ fs.1 ++ "\n}", fs.2)
   | .input =>
-    let (d, st1) := printDirectives o apps t.name st
-    let rec goIn (i : Nat) (st : PrinterState) : List ArgD → List String × PrinterState
-      | [] => ([], st)
-      | f :: fs =>
-        let (v, st2) := printInputValue s o apps t.name f st
-        let (rest, st3) := goIn (i+1) st2 fs
-        ((printDescription o f.desc 1 (i == 0) ++ o.indent ++ v) :: rest, st3)
-    let (ls, st2) := goIn 0 st1 t.inputFields
-    (desc ++ "input " ++ t.name ++ d ++ " {\n" ++ "\n".intercalate ls ++ "\n}", st2)
+    let r := mapSt (printInputField s o apps t.name) 0 t.inputFields d.2
+    (desc ++ "input " ++ t.name ++ d.1 ++ " {\n" ++ "\n".intercalate r.1 ++ "\n}", r.2)
 
 def printDirectiveDefinition (s : SchemaD) (o : Opts) (apps : Apps) (d : DirectiveD) (st : PrinterState) : String × PrinterState :=
-  let (a, st1) := printArguments s o apps ("@" ++ d.name) d.args 0 st
-  (printDescription o d.desc ++ "directive @" ++ d.name ++ a ++ " on " ++ " | ".intercalate d.locations, st1)
+  let a := printArguments s o apps ("@" ++ d.name) d.args 0 st
+  (printDescription o d.desc ++ "directive @" ++ d.name ++ a.1 ++ " on " ++ " | ".intercalate d.locations, a.2)
 
 def printSchemaDefinition (s : SchemaD) (o : Opts) (apps : Apps) (st : PrinterState) : String × PrinterState :=
-  let (d, st1) := printDirectives o apps "" st
+  let d := printDirectives o apps "" st
   let dflt (r : Option String) (n : String) := match r with | none => true | some x => x == n
-  if d.isEmpty && dflt s.query "Query" && dflt s.mutation "Mutation" && dflt s.subscription "Subscription" then ("", st1)
-  else
-    let ops := (match s.query with | some q => [o.indent ++ "query: " ++ q] | none => [])
-      ++ (match s.mutation with | some q => [o.indent ++ "mutation: " ++ q] | none => [])
-      ++ (match s.subscription with | some q => [o.indent ++ "subscription: " ++ q] | none => [])
-    ("schema" ++ d ++ " {\n" ++ "\n".intercalate ops ++ "\n}", st1)
+  let ops := (match s.query with | some q => [o.indent ++ "query: " ++ q] | none => [])
+    ++ (match s.mutation with | some q => [o.indent ++ "mutation: " ++ q] | none => [])
+    ++ (match s.subscription with | some q => [o.indent ++ "subscription: " ++ q] | none => [])
+  (if d.1.isEmpty && dflt s.query "Query" && dflt s.mutation "Mutation" && dflt s.subscription "Subscription" then ""
+   else "schema" ++ d.1 ++ " {\n" ++ "\n".intercalate ops ++ "\n}", d.2)
 
 def insertSorted {α} (key : α → String) (x : α) : List α → List α
   | [] => [x]
@@ -334,21 +324,17 @@ def sortBy {α} (key : α → String) (l : List α) : List α := l.foldr (insert
 
 /-- `ASTSchemaPrinter.__call__` (include_introspection = False) -/
 def printSchema (o : Opts) (s : SchemaD) (apps : Apps) (st : PrinterState) : String × PrinterState :=
-  let (sd, st0) := printSchemaDefinition s o apps st
-  let (ds, st1) := (sortBy (·.name) s.directives).foldl (fun (acc : List String × PrinterState) d =>
-    let (t, st') := printDirectiveDefinition s o apps d acc.2
-    (acc.1 ++ [t], st')) ([], st0)
-  let (ts, st2) := (sortBy (·.name) s.types).foldl (fun (acc : List String × PrinterState) t =>
-    let (x, st') := printType s o apps t acc.2
-    (acc.1 ++ [x], st')) ([], st1)
-  let parts := ((sd :: ds) ++ ts).filter (!·.isEmpty)
-  (if parts.isEmpty then "" else "\n\n".intercalate parts ++ "\n", st2)
+  let sd := printSchemaDefinition s o apps st
+  let ds := mapSt (fun _ d st => printDirectiveDefinition s o apps d st) 0 (sortBy (·.name) s.directives) sd.2
+  let ts := mapSt (fun _ t st => printType s o apps t st) 0 (sortBy (·.name) s.types) ds.2
+  let parts := ((sd.1 :: ds.1) ++ ts.1).filter (!·.isEmpty)
+  (if parts.isEmpty then "" else "\n\n".intercalate parts ++ "\n", ts.2)
 
 /-- a HISTORY of `to_string` calls in one process: the state is threaded through -/
 def runHistory (st : PrinterState) : List (Opts × SchemaD × Apps) → List String
   | [] => []
-  | (o, s, a) :: rest =>
-    let (t, st') := printSchema o s a st
-    t :: runHistory st' rest
+  | c :: rest =>
+    let r := printSchema c.1 c.2.1 c.2.2 st
+    r.1 :: runHistory r.2 rest
 
 end PyGql.SdlPrint
